@@ -1,6 +1,8 @@
 //! rustun-verif: property-based testing and fuzzing harness for sancane/rustun (see /verif/DESIGN.md).
 pub mod codec;
 pub mod conv;
+pub mod corpus;
+pub mod fuzzgen;
 pub mod gen;
 pub mod mutate;
 pub mod props;
